@@ -9,6 +9,7 @@
 //	R  render HISTORIES: 2..6 requests on one router, one render call each (Stringf fast and slow path,
 //	   String, HTML, Data, the JSON helpers), some served to a ResponseWriter whose k-th Write fails;
 //	   per request: error reported or status, content type, body
+//	M  Format(code, data): negotiation over json/html/xml/txt + rendering, after 0..2 other negotiation calls
 //	P  requests served concurrently (after a sequential prelude with Format), each in a fresh process:
 //	   per call the set of answers over all rounds, per worker the set of Stringf bodies
 //	H  header setters: a script of Header / AppendHeader / Vary / Link / Redirect / Location /
@@ -35,12 +36,13 @@ import (
 
 // caseT is the concrete case as it travels in the JSON comment of a case line (for `replay`).
 type caseT struct {
-	N *negCase `json:",omitempty"`
-	F *fmtCase `json:",omitempty"`
-	J *jsnCase `json:",omitempty"`
-	H *hdrCase `json:",omitempty"`
-	R *renCase `json:",omitempty"`
-	P *parCase `json:",omitempty"`
+	N *negCase    `json:",omitempty"`
+	F *fmtCase    `json:",omitempty"`
+	J *jsnCase    `json:",omitempty"`
+	H *hdrCase    `json:",omitempty"`
+	R *renCase    `json:",omitempty"`
+	P *parCase    `json:",omitempty"`
+	M *fmtNegCase `json:",omitempty"`
 }
 
 var rt = router.MustNew()
@@ -113,6 +115,8 @@ func emit(id string, k caseT, st *hx.Stats) string {
 		return emitRen(id, k.R, st)
 	case k.P != nil:
 		return emitPar(id, k.P, st)
+	case k.M != nil:
+		return emitFmtNeg(id, k.M, st)
 	}
 	panic("empty case")
 }
@@ -143,6 +147,8 @@ func main() {
 				switch x := r.Intn(200); {
 				case x < 5:
 					k.P = genPar(r)
+				case x < 20:
+					k.M = genFmtNeg(r)
 				case x < 75:
 					k.N = genNeg(r)
 				case x < 108:
